@@ -940,6 +940,8 @@ fn check_c06_strings() {
               "|", "a|b", "1.2.3 | 2.x", "1.x ||| 2.x", "| |", "1.2.3 |", "|| 1.2.3", "1.2.3 ||", "||", " || ", "1.2.3-", "1.2.3+", "1.2.3-a..b", "1.2.3.4", "1.2.3 foo",
               "1.2.3 \u{a9}", "1.2.3\t\u{a9}", ">=1 \u{a9}", "1.2.3 \u{a9} 2", "1 - \u{a9}", "\u{a9} - 1", "1.2.3 ||\u{a9}", "1.2.3 \u{1F600}", " \u{e9}", "\t\u{e9}x", "1.2.3  \u{e9}",
               "1.2.900719925474100", "1.2.99999999999999999999999", ">=1.2.99999999999999999999999", "1.2.3\n4.5.6", "\n\n1.2", "1.2.3-\u{e9}", ">=\u{e9}", "\u{1F600}", "1.2.3 - ", " - 1.2.3", "1.2.3 - 2.0.0 - 3"] { all.push(t.to_string()); }
+    // a multi-byte character at every byte offset up to 300, alone and after a valid prefix
+    for n in 0..300usize { all.push(format!("{}\u{e9}", "a".repeat(n))); all.push(format!("1.2.3 {}\u{e9}", "b".repeat(n))); all.push(format!("{}\u{1F600}x", "1".repeat(n))); }
     for t in &all {
         let r = catch_unwind(AssertUnwindSafe(|| {
             match Version::parse(t) { Ok(v) => { let _ = v.to_string(); } Err(e) => touch_error(&e) }
